@@ -386,6 +386,24 @@ def run(prog, check):
     check.ob('C20.R3', '%s::time-axis-first-once' % b.key, ok, b.where,
              "'t' is moved to the front (removed once, prepended once)" if ok else "'t' is not moved to the front exactly once (%s)" % why_t,
              'a block with a t variable')
+    # the generated text is produced from the block that is parsed now: a generator method never hands back text it
+    # remembered from an earlier call
+    for gm_ in gen_cls.methods.values():
+        assigned = {t.attr for n in ast.walk(gm_.node) if isinstance(n, ast.Assign) for t in n.targets
+                    if isinstance(t, ast.Attribute) and isinstance(t.value, ast.Name) and t.value.id == 'self'}
+        for r_ in ast.walk(gm_.node):
+            if isinstance(r_, ast.Return) and isinstance(r_.value, ast.Attribute) and isinstance(r_.value.value, ast.Name) and \
+                    r_.value.value.id == 'self' and r_.value.attr in assigned:
+                gcf = cfgmod.build(gm_)
+                rn = gcf.node_of(r_)
+                asg = [nd for nd in gcf.stmt_nodes() if nd.kind == 'stmt' and isinstance(nd.ast, ast.Assign) and any(
+                    isinstance(t, ast.Attribute) and t.attr == r_.value.attr for t in nd.ast.targets)]
+                fresh = bool(asg) and gcf.must_pass(gcf.entry, rn, asg)
+                check.saw(gm_)
+                check.ob('C20.R2', '%s::text-not-remembered(%s)' % (gm_.key, r_.value.attr), fresh, '%s:%d' % (gm_.module.rel, r_.lineno),
+                         'the returned text was produced in this call' if fresh else
+                         'self.%s can be returned without being rebuilt: a second block with the same variables but other equations gets '
+                         'the first block\'s iterator' % r_.value.attr, 'the same generator object parsed twice with a changed right-hand side')
     check.floor('C20.R1', 2)
     check.floor('C20.R2', 10)
     check.floor('C20.R3', 4)
